@@ -11,7 +11,7 @@ PROPERTY = {
     'id': 'C09',
     'technique': 'CrossHair symbolic execution of evaluation (XRefNode chain loop, EvalContext caches) over reference graphs whose edges are symbolic target indices (exact decision-tree selectors); termination is checked as a safety assertion by a look-up counter installed through the public EvalContext extension point; oracle = graph reachability',
     'assumptions': [
-        'termination monitor: more than 1000 get_node look-ups during one build of a <= 12-node config under a recursion limit of (current depth + 250) frames means divergence: a cycle through containers recurses and ends in RecursionError -> EvalError after fewer look-ups than frames (the chain-following loop is deterministic in the current node); every refuted path is replayed natively under a wall-clock watchdog, a native hang is reported as the violation',
+        'termination monitor: more than 1000 get_node look-ups during one build of a <= 12-node config under a recursion limit of (current depth + 160) frames means divergence: a cycle through containers recurses and ends in RecursionError -> EvalError after fewer look-ups than frames (the chain-following loop is deterministic in the current node); every refuted path is replayed natively under a wall-clock watchdog, a native hang is reported as the violation',
         'reference graphs are over the listed positions only',
     ],
     'bounds': {'positions': "ref slots a, b (top level), m.x (in a mapping), l[1] (in a list), c (argument of a !call), z (second source); targets: a, b, m.x, l[1], m, l, d, d.v, c, missing",
@@ -23,7 +23,7 @@ PROPERTY = {
     'wall_budget': {'quick': 900, 'thorough': 3400},
 }
 
-TARGETS = ['a', 'b', 'm.x', 'l[1]', 'm', 'l', 'd', 'd.v', 'c', 'nope.q']
+TARGETS = ['a', 'b', 'm.x', 'l[1]', 'm', 'l', 'd', 'd.v', 'c', 's', 'nope.q']   # s: a string scalar whose text equals its own path
 SLOTS = ['a', 'b', 'm.x', 'l[1]', 'c', 'z']
 DIVERGED = [False]
 
@@ -43,7 +43,7 @@ class MonCtx(EvalContext):
 
 def _oracle(edges):
     """edges: slot -> target path or None (slot holds data). returns ('err', why) or ('ok', {slot: final data path})"""
-    contains = {'m': ['m.x'], 'l': ['l[1]'], 'd': [], 'd.v': [], 'c': []}
+    contains = {'m': ['m.x'], 'l': ['l[1]'], 'd': [], 'd.v': [], 'c': [], 's': []}
     data_paths = {'m', 'l', 'd', 'd.v'}
 
     def deps(p):
@@ -114,7 +114,7 @@ def c09_graph(split, ta, tb, tm, tl):
         t = edges[slot]
         return data if t is None else ("!xref '%s'" % t)
     tag = '!ref' if split.get('ref_tag') else '!xref'
-    doc1 = ('a: %s\nm: {x: %s, y: 5}\nl: [7, %s]\nc: !call:engine.targets.ident {x: %s}\nb: %s\nd: {v: [1, 2]}\n'
+    doc1 = ('a: %s\nm: {x: %s, y: 5}\nl: [7, %s]\nc: !call:engine.targets.ident {x: %s}\nb: %s\nd: {v: [1, 2]}\ns: s\n'
             % (val('a', '[10]'), val('m.x', '{q: 11}'), val('l[1]', '[12]'), val('c', '[13]'), val('b', '{w: 14}')))
     doc1 = doc1.replace('!xref', tag)
     doc2 = 'z: %s\n' % val('z', '[15]')
@@ -128,11 +128,11 @@ def c09_graph(split, ta, tb, tm, tl):
             while f is not None:
                 depth += 1
                 f = f.f_back
-        sys.setrecursionlimit(depth + 250)
+        sys.setrecursionlimit(depth + 160)
         b = Builder()
         b.add_source(doc1, raw_yaml=True, filename='f1.yaml')
         b.add_source(doc2, raw_yaml=True, filename='f2.yaml')
-        cfg = Config(b.build(), eval_ctx=MonCtx())
+        cfg = MonCtx().evaluate(b.build())      # low-level API: merge + evaluate (Config() only adds a deep copy, see C11/C19)
     except ayerr.EvalError as e:
         reraise_internal(e)
         note(error=repr(e)[:200])
@@ -170,7 +170,7 @@ def _splits(tier):
     # fixed assignments: -1 = data, k >= 0 = reference to TARGETS[k]; absent = symbolic
     nt = len(TARGETS)
     if tier == 'quick':
-        for lfix, c, z in ((0, 1, 3), (4, 3, 8)):
+        for lfix, c, z in ((0, 1, 9), (4, 3, 8)):
             for a in range(nt + 1):
                 out.append({'fixed': {'l[1]': lfix, 'a': (a if a < nt else -1)}, 'c': c, 'z': z})
         return out
